@@ -106,17 +106,20 @@ let parse_bop toks = match toks with
   | ["dropfut"; f] -> BDropFut (nat_s f)
   | _ -> raise (Bad (String.concat " " toks))
 
-(* a world is a closure: op tokens -> (world, obs) *)
-type world = W of (string list -> world * obs)
-let rec mk_m x = W (fun t -> let (x', o) = mstep x (parse_mop t) in (mk_m x', o))
-let rec mk_s x = W (fun t -> let (x', o) = sstep x (parse_sop t) in (mk_s x', o))
-let rec mk_r x = W (fun t -> let (x', o) = rstep x (parse_rop t) in (mk_r x', o))
-let rec mk_o x = W (fun t -> let (x', o) = ostep x (parse_oop t) in (mk_o x', o))
-let rec mk_b x = W (fun t -> let (x', o) = bstep x (parse_bop t) in (mk_b x', o))
+(* a world is a closure: op tokens -> (world, obs, micro-step machine agrees?)
+   For the Mutex and the Semaphore the poll-granular model runs in lockstep with the micro-step machine of
+   coq/Sched/*EvSched.v executed without interleaving (coq/Sched/*EvSolo.v); the flag says whether the two states
+   still correspond after the operation. *)
+type world = W of (string list -> world * obs * bool)
+let rec mk_m x = W (fun t -> let ((x', o), ok) = mstep2 true x (parse_mop t) in (mk_m x', o, ok))
+let rec mk_s x = W (fun t -> let ((x', o), ok) = sstep2 true x (parse_sop t) in (mk_s x', o, ok))
+let rec mk_r x = W (fun t -> let (x', o) = rstep x (parse_rop t) in (mk_r x', o, true))
+let rec mk_o x = W (fun t -> let (x', o) = ostep x (parse_oop t) in (mk_o x', o, true))
+let rec mk_b x = W (fun t -> let (x', o) = bstep x (parse_bop t) in (mk_b x', o, true))
 
 let init_world toks = match toks with
-  | ["mutex"] -> mk_m mw0
-  | ["sem"; n] -> mk_s (sw_init (n_of_string n))
+  | ["mutex"] -> mk_m mw2_init
+  | ["sem"; n] -> mk_s (sw2_init (n_of_string n))
   | ["rw"] -> mk_r rw0
   | ["once"] -> mk_o ow0
   | ["bar"; n] -> mk_b (bw_init (n_of_string n))
@@ -155,8 +158,13 @@ let () =
                | None -> (line, "")
                | Some i -> (String.sub line 0 i, String.sub line (i + 1) (String.length line - i - 1)) in
              (try
-                let (w', o) = f (split_ws opstr) in
+                let (w', o, micro_ok) = f (split_ws opstr) in
                 cur := Some w';
+                if not micro_ok && not !skipping then begin
+                  incr mism; skipping := true;
+                  Printf.printf "MISMATCH hist=%d step=%d op=[%s] micro-step machine (run without interleaving) and poll-granular model disagree on the state after this operation\n"
+                    !hist !step_no (norm opstr)
+                end;
                 let model = fmt_obs o in
                 if print_mode then Printf.printf "%s | %s\n" (norm opstr) model
                 else begin
